@@ -5,6 +5,7 @@ decoder, cloned back, re-run under other schedules; CompressTrace.tla (ArchiveFo
 import json
 import os
 import subprocess
+import sys
 
 from common import *
 
@@ -77,6 +78,40 @@ def run_compress_check(prop, tier):
                     e[k] = e[k][:100]
         out.violation(sig, "%s (%s)" % (v["rule"], json.dumps(key)), {"kind": "compress_rt", "scenario": {k: sc[k] for k in sc if k not in ("ev", "requested", "src_sum", "src_len", "idlevel")},
                                                                      "verdict": {k: v[k] for k in ("rule", "scenario", "line")}, "events": evs[:12]})
+    args_cov = {}
+    if prop == "C11":
+        # the option grammar (CliArgs.tla): TLC enumerates option vectors with the prediction accepted / rejected; each sampled vector is one real
+        # `bita compress`; ArgsTrace.tla judges: an accepted vector is recorded verbatim (C11 SETTINGS); the other rule families (ARGS ...) are counted only
+        vec = os.path.join(workdir, "vectors.ndjson")
+        tlc_gen("ArgsTrace", "ArgsGen.cfg", vec)
+        nvec = sum(1 for _ in open(vec))
+        aprocs, atraces = [], []
+        for i in range(12):
+            tr = os.path.join(workdir, "args%d.ndjson" % i)
+            atraces.append(tr)
+            aprocs.append(subprocess.Popen([sys.executable, os.path.join(VERIF, "lib", "args_l2.py"), "--vectors", vec, "--out", tr, "--bita", BITA, "--dir", os.path.join(workdir, "argsfs"),
+                                            "--shard", str(i), "--shards", "12", "--every", "6" if tier == "quick" else "1", "--seed", str(seed())], stdout=subprocess.PIPE, stderr=subprocess.PIPE))
+        aruns = 0
+        for p in aprocs:
+            o, e = p.communicate()
+            if p.returncode != 0:
+                raise ToolError("args_l2 failed (%d): %s" % (p.returncode, e.decode()[-2000:]))
+            aruns += json.loads(o.decode().strip().splitlines()[-1])["runs"]
+        averdicts, asummary = tlc_validate("ArgsTrace", "ArgsTrace.cfg", [t for t in atraces if os.path.getsize(t) > 0])
+        acounts = {}
+        for v in averdicts:
+            fam = " ".join(v["rule"].split(" ")[:2])
+            acounts[fam] = acounts.get(fam, 0) + 1
+            if not v["rule"].startswith(prop):
+                continue
+            evs = slice_at_line(v["trace"], v["line"])
+            e0 = evs[0] if evs else {}
+            out.violation("%s|%s" % (v["rule"], json.dumps(e0.get("o"), sort_keys=True)), "%s (option vector %s)" % (v["rule"], json.dumps(e0.get("o"))),
+                          {"kind": "args_l2", "vector": e0.get("o"), "event": e0, "verdict": {k: v[k] for k in ("rule", "scenario", "line")}})
+        log("option grammar: %d vectors enumerated, %d real command lines run, %d accepted by the rules, verdict families %s" % (nvec, aruns, asummary["scenarios_ok"], acounts))
+        args_cov = {"vectors_enumerated": nvec, "command_lines_run": aruns, "ok": asummary["scenarios_ok"], "verdict_families": acounts,
+                    "note": "ARGS families (a refused command line ending in a panic or a kill: observations O2 / O4 of DESIGN.md) are counted, not reported; C11 SETTINGS verdicts are violations"}
+        runs += aruns
     samples = []
     for e in slice_at_line(traces[3], 2)[:4]:
         if "rec" in e and len(json.dumps(e["rec"])) > 3000:
@@ -85,7 +120,7 @@ def run_compress_check(prop, tier):
     shutil.rmtree(workdir, ignore_errors=True)
     out.coverage = {"states": states, "transitions": trans, "traces_validated_against_impl": summary["scenarios_ok"] + summary["verdicts"],
                     "compress_and_clone_runs": runs, "trace_events_validated": summary["events"], "verdicts_all_properties": counts,
-                    "model_checking_runs": mc_runs, "exhaustive": False,
+                    "model_checking_runs": mc_runs, "option_grammar": args_cov, "exhaustive": False,
                     "rule": "every source shape of Compress.tla's bound (chunk identities with duplicates) x buffered-chunks {1,2,3} x {library, CLI} writer with re-runs under other buffering/delivery, the CLI additionally under the late-temp-write schedule forced with strace; plus a seeded sample of length class x content x algorithm x min/window relation x filter bits x hash length x 10 compression settings x buffering x delivery x transport",
                     "samples": samples}
     out.assumptions = ["byte equality, Blake2 and the codecs are computed by Rust code and enter the specification as booleans (DESIGN.md section 9)",
